@@ -559,9 +559,17 @@ def classify(loc, d, value, info, serialized_text):
             return "label_falsy" if f == "FLabelPrim" else "empty_container"
         if not free or not name_ok:
             return "delimiter_in_item"
-    if loc == "path" and isinstance(serialized_text, str) and " " in serialized_text:
+    if loc == "path" and any(" " in s for s in flat_strings(value)):
         return "path_space_plus"
     return None
+
+
+def flat_strings(v):
+    if isinstance(v, list):
+        return [str(x) for x in v]
+    if isinstance(v, dict):
+        return [s for k, x in v.items() for s in (k, str(x))]
+    return [str(v)]
 
 
 def coq_info_expr(d, value):
@@ -632,9 +640,12 @@ def oracle_once(rec, defs, values, call_headers=None, body=None, media_type=None
         fs = info[0]
         serialized = (parts[loc] or {}).get(d["name"]) if isinstance(parts[loc], dict) else None
         region = classify(loc, d, values[loc], info, serialized)
+        if loc == "header" and d["name"].lower() in {k.lower() for k in (call_headers or {})}:
+            continue  # overridden by an explicit header: checked below
         if fs is None:
-            problems.append((f"{loc} parameter has no standard wire form", region, None))
-            continue
+            if region == "cookie_explode_removed":
+                problems.append((f"{loc} parameter has no wire form at all (removed)", region, None))
+            continue  # the specification defines no wire form for this style/type combination
         try:
             decoded = decode_received(loc, d, fs, item)
             ok = same_up_to_coercion(decoded, values[loc])
@@ -642,6 +653,10 @@ def oracle_once(rec, defs, values, call_headers=None, body=None, media_type=None
         except Undecodable as exc:
             ok = False
             detail = {"undecodable": str(exc)}
+        if not ok and region is None and loc == "query" and "path" in defs:
+            # a path value sent as a Python repr can contain "?" or "#" and then swallows the query string
+            if classify("path", defs["path"], values["path"], infos["path"], None) == "default_style_not_applied":
+                region = "default_style_not_applied"
         if not ok:
             problems.append((f"{loc} parameter not recovered by the {d.get('style') or 'default'} decoder", region, {**detail, "sent": parts[loc], "target": item["target"]}))
     # only expected headers
@@ -780,7 +795,7 @@ def run(chk: core.Check):
         n = (150 if quick else 2500) * (10 if chk.broken else 1)
         cases = [c["case"] for c in corpus if c.get("stage") == "oracle"] + [gen_e2e(rng) for _ in range(n)]
         chk.stages["oracle_loopback"] = run_oracle(chk, rec, cases)
-        chk.stages["oracle_wsgi"] = oracle_wsgi(chk, rng, rec, 40 if quick else 400)
+        chk.stages["oracle_wsgi"] = oracle_wsgi(chk, rng, rec, 100 if quick else 1000)
         for f in chk.findings:
             chk.known(f, witness_fails(f["witness"], rec))
     finally:
@@ -1033,11 +1048,26 @@ def oracle_wsgi(chk, rng, rec, n):
         start_response("200 OK", [("Content-Type", "application/json")])
         return [b"{}"]
 
-    done = differ = 0
-    for _ in range(n):
-        c = gen_e2e(rng)
+    done = differ = skipped = 0
+    cases = [gen_e2e(rng) for _ in range(n)]
+    for c in cases:
+        c["defs"].pop("cookie", None)
+    exprs, index = [], []
+    for i, c in enumerate(cases):
+        for loc, d in c["defs"].items():
+            exprs.append(coq_info_expr(d, c["values"][loc]))
+            index.append((i, loc))
+    regions = [set() for _ in cases]
+    for (i, loc), t in zip(index, core.coq_eval(IMPORTS, exprs)):
+        info = parse_info(t)
+        r = classify(loc, cases[i]["defs"][loc], cases[i]["values"][loc], info, None)
+        if r is not None or info[0] is None:
+            regions[i].add(r)
+    for c, reg in zip(cases, regions):
         defs, values = c["defs"], c["values"]
-        defs.pop("cookie", None)
+        if reg - {"path_space_plus", "delimiter_in_item"}:
+            skipped += 1  # already a listed finding of the requests transport: the comparison of transports says nothing there
+            continue
         try:
             op_http = build_op(list(defs.values()), rec.url + "/api")
             parts = {loc: real_chain(op_http, loc, {d["name"]: values[loc]}) for loc, d in defs.items()}
@@ -1073,7 +1103,7 @@ def oracle_wsgi(chk, rng, rec, n):
             chk.fail("WSGI transport delivers a different request than the requests transport",
                      {"defs": defs, "values": {k: canon(v) for k, v in values.items()}},
                      {"http": got[0]["target"], "wsgi": w}, region=wsgi_region(parts))
-    return {"runs": done, "differences": differ}
+    return {"runs": done, "differences": differ, "skipped_inside_listed_regions": skipped}
 
 
 def wsgi_region(parts):
@@ -1095,6 +1125,10 @@ def witness_fails(w, rec=None) -> bool:
             infos = {loc: parse_info(t) for loc, t in zip(c["defs"], core.coq_eval(IMPORTS, exprs))}
             status, problems = oracle_once(rec, c["defs"], c["values"], c.get("call_headers"), c.get("body"), c.get("media_type"), infos)
             return status == "sent" and any(region == w["region"] for _, region, _ in problems)
+        if kind == "label_falsy":
+            from schemathesis.specs.openapi.serialization import label_primitive
+
+            return label_primitive("id")({"id": w["value"]}) == {"id": ""}
         if kind == "strict_path":
             # the raw path segment read by the style decoder BEFORE percent-decoding
             c = w["case"]
